@@ -7,6 +7,7 @@ import (
 	"net"
 	"os"
 	"strings"
+	"sync"
 	"testing"
 	"time"
 
@@ -232,6 +233,16 @@ func runDL(c DLCase) core.Result {
 		return speer.Opts{InfoHash: ih, PeerID: id, Fast: fast, Ext: true, MSE: mse, MSEOptional: true, MetadataSize: int64(len(infoBytes)), Reqq: 250}
 	}
 	servers := make(chan *speer.Server, 16)
+	var allMu sync.Mutex
+	var allServers []*speer.Server
+	track := func(s *speer.Server) *speer.Server {
+		if s != nil {
+			allMu.Lock()
+			allServers = append(allServers, s)
+			allMu.Unlock()
+		}
+		return s
+	}
 	if c.SeedPeer && !c.SeedDials {
 		ln, err := net.Listen("tcp4", sess.IP(1)+":0")
 		if err != nil {
@@ -272,7 +283,7 @@ func runDL(c DLCase) core.Result {
 					if err != nil {
 						return
 					}
-					s := speer.Serve(p, L.b, F, int(l.PieceLength), infoBytes)
+					s := track(speer.Serve(p, L.b, F, int(l.PieceLength), infoBytes))
 					if L.b.Honest() && L.b.Have == nil && !L.b.NeverUnchoke && L.b.DisconnectAfter == 0 && L.b.StallMs == 0 && L.b.ChokeAfter == 0 && L.b.DuplicateEvery == 0 {
 						honestC <- s
 					}
@@ -338,7 +349,7 @@ func runDL(c DLCase) core.Result {
 		if err != nil {
 			return nil
 		}
-		return speer.Serve(p, b, F, int(l.PieceLength), infoBytes)
+		return track(speer.Serve(p, b, F, int(l.PieceLength), infoBytes))
 	}
 	if c.SeedPeer && c.SeedDials {
 		honest = dial(1, speer.Behaviour{}, c.SeedFast, mseOpts(c.SeedMSE, true))
@@ -356,6 +367,118 @@ func runDL(c DLCase) core.Result {
 		}
 	}
 
+	// "No idle, unchoked peer holding a needed and unrequested piece is left without a request", decided where every
+	// request is visible to the harness: downloads from peers only (what the client has assigned to a web seed cannot
+	// be seen from outside). Judged over a window of 2.5 s in which the honest seeder is connected, unchoking, sees the
+	// client interested and has no request outstanding: a piece that is still incomplete on storage at the end of the
+	// window and for which no scripted peer holds an unanswered request or received one during the window was needed
+	// and unrequested all along.
+	idleViolation := make(chan string, 1)
+	stopWatch := make(chan struct{})
+	defer close(stopWatch)
+	if c.SeedPeer && !c.WebSeed && c.BadWebSeed == 0 {
+		go func() {
+			const window = 2500 * time.Millisecond
+			var since time.Time
+			for {
+				select {
+				case <-stopWatch:
+					return
+				case <-time.After(100 * time.Millisecond):
+				}
+				allMu.Lock()
+				srv := append([]*speer.Server(nil), allServers...)
+				allMu.Unlock()
+				var h *speer.Server
+				for _, s := range srv {
+					if s.B.Honest() && s.B.Have == nil && !s.B.NeverUnchoke && s.B.DisconnectAfter == 0 && s.B.StallMs == 0 && s.B.ChokeAfter == 0 && s.B.DuplicateEvery == 0 && !s.P.Closed() {
+						h = s
+					}
+				}
+				idle := false
+				if h != nil && tor.Stats().Status == torrent.Downloading {
+					_, _, outstanding, unchoked, interested, _ := h.Snapshot()
+					idle = outstanding == 0 && unchoked && interested
+				}
+				if !idle {
+					since = time.Time{}
+					continue
+				}
+				if since.IsZero() {
+					since = time.Now()
+					continue
+				}
+				if time.Since(since) < window {
+					continue
+				}
+				// pieces touched by any request that is unanswered or arrived during the window
+				touched := map[uint32]bool{}
+				for _, s := range srv {
+					open := map[[3]uint32]time.Time{}
+					for _, ev := range s.P.Log() {
+						m := ev.Msg
+						key := [3]uint32{m.Index, m.Begin, m.Length}
+						switch {
+						case !ev.Out && m.Kind == "request":
+							open[key] = ev.At
+							if !ev.At.Before(since) {
+								touched[m.Index] = true
+							}
+						case !ev.Out && m.Kind == "cancel":
+							delete(open, key)
+						case ev.Out && m.Kind == "piece":
+							delete(open, [3]uint32{m.Index, m.Begin, uint32(len(m.Data))})
+							if !ev.At.Before(since) {
+								touched[m.Index] = true
+							}
+						case ev.Out && m.Kind == "reject":
+							delete(open, key)
+						}
+					}
+					if !s.P.Closed() { // the unanswered requests of a peer that is gone are void
+						for k := range open {
+							touched[k[0]] = true
+						}
+					}
+				}
+				var snap map[string][]byte
+				for _, m := range prov.ByID {
+					snap = m.Snapshot()
+				}
+				offs := l.FileOffsets()
+				mask := l.PadMask()
+				for pi := 0; pi < l.NumPieces(); pi++ {
+					if touched[uint32(pi)] {
+						continue
+					}
+					complete := true
+					for b := pi * int(l.PieceLength); b < min((pi+1)*int(l.PieceLength), len(F)) && complete; b++ {
+						if mask[b] {
+							continue
+						}
+						fi := 0
+						for fi+1 < len(offs) && offs[fi+1] <= int64(b) {
+							fi++
+						}
+						data := snap[l.ExpectedPath(fi)]
+						o := int64(b) - offs[fi]
+						if o >= int64(len(data)) || data[o] != F[b] {
+							complete = false
+						}
+					}
+					if !complete && time.Since(since) >= window && tor.Stats().Status == torrent.Downloading {
+						select {
+						case idleViolation <- fmt.Sprintf("IDLE: for %v the honest seeder (holding every piece) was connected, unchoking, saw the client interested and had no request outstanding, while piece %d was incomplete on storage and no peer held or received a request for it",
+							time.Since(since).Round(100*time.Millisecond), pi):
+						default:
+						}
+						return
+					}
+				}
+				since = time.Time{}
+			}
+		}()
+	}
 	deadline := time.After(25 * time.Second)
 	completed := false
 	select {
@@ -370,6 +493,11 @@ func runDL(c DLCase) core.Result {
 		case honest = <-honestC:
 		default:
 		}
+	}
+	select {
+	case v := <-idleViolation:
+		return core.Failf("%s", v)
+	default:
 	}
 	nontrivial := len(l.Files) >= 2 || len(c.Nuisance) > 0 || c.Magnet || c.Enc != 0 || c.SeedMSE != 0 || c.BadWebSeed != 0
 	for _, lb := range l.Labels() {
